@@ -72,7 +72,9 @@ func c12Classifier(c *Ctx, pr *PropertyRun) {
 				if env.Eq(S(pth), K("/")) {
 					return []string{"0"}, true
 				}
-				return []string{fmt.Sprintf(`(len(strings.Split(%s,"/"))-1)`, pth)}, true
+				// the number of segments of a path that starts with a slash:
+				// len(Split(P,"/"))-1 and Count(P,"/") are the same number
+				return []string{fmt.Sprintf(`(len(strings.Split(%s,"/"))-1)`, pth), fmt.Sprintf(`strings.Count(%s,"/")`, pth)}, true
 			}}
 		res := runDTX(c, spec)
 		reportDTX(c, r, spec, res, short)
